@@ -371,7 +371,7 @@ fn holder_claim_probe(a: &mut Vec<i128>) -> String {
 	res
 }
 
-/// claim_deadline_probe <n> (<cltv_expiry> <value_msat>)*n
+/// claim_deadline_probe <n> (<cltv_expiry> <value_msat>)*n [<an earlier claim of the hash is in flight 0/1>]
 /// The parts of one multi-part payment, in this order, through the real `handle_claimable_htlc` of a live
 /// ChannelManager. Output: `1 <amount_msat> <claim_deadline>` from the PaymentClaimable event, or `0 0 0`.
 fn claim_deadline_probe(a: &mut Vec<i128>) -> String {
@@ -381,7 +381,12 @@ fn claim_deadline_probe(a: &mut Vec<i128>) -> String {
 	let node_cfgs = create_node_cfgs(1, &chanmon_cfgs);
 	let node_chanmgrs = create_node_chanmgrs(1, &node_cfgs, &[None]);
 	let nodes = create_network(1, &node_cfgs, &node_chanmgrs);
-	let r = lightning::ln::channelmanager::verif_hooks::claim_deadline_probe(nodes[0].node, &parts);
+	let claiming = a.len() > 1 + 2 * n && a[1 + 2 * n] != 0;
+	let r = if claiming {
+		lightning::ln::channelmanager::verif_hooks::claim_in_flight_probe(nodes[0].node, &parts)
+	} else {
+		lightning::ln::channelmanager::verif_hooks::claim_deadline_probe(nodes[0].node, &parts)
+	};
 	core::mem::forget(nodes);
 	match r {
 		Some((amt, Some(d))) => format!("1 {} {}", amt, d),
@@ -2616,6 +2621,75 @@ fn own_csv_battery(_a: &mut Vec<i128>) -> String {
 	format!("{} {}", bad, total)
 }
 
+/// prev_config_probe <ticks after the first policy change> <ticks after the second>
+/// A live forwarding node changes its relay policy on a channel twice: base fee 1000 -> 2000 msat, <k1> timer ticks,
+/// 2000 -> 3000 msat, <k2> timer ticks. Then the real ChannelManager is asked (can_forward_probe hook) whether it would
+/// forward an HTLC paying exactly the base fee of each of the three policies. Output: `<accepts 1000> <accepts 2000>
+/// <accepts 3000>`. A policy may be honoured only while it is current or was the one replaced last, and then for
+/// fewer than EXPIRE_PREV_CONFIG_TICKS (5) ticks.
+fn prev_config_probe(a: &mut Vec<i128>) -> String {
+	let (k1, k2) = (a[0], a[1]);
+	let chanmon_cfgs = create_chanmon_cfgs(2);
+	let node_cfgs = create_node_cfgs(2, &chanmon_cfgs);
+	let node_chanmgrs = create_node_chanmgrs(2, &node_cfgs, &[None, None]);
+	let nodes = create_network(2, &node_cfgs, &node_chanmgrs);
+	let chan = create_announced_chan_between_nodes(&nodes, 0, 1);
+	let scid = chan.0.contents.short_channel_id;
+	let chan_id = chan.2;
+	let peer = nodes[1].node.get_our_node_id();
+	let mut cfg = ChannelConfig::default();
+	cfg.forwarding_fee_proportional_millionths = 0;
+	cfg.cltv_expiry_delta = 72;
+	let mut set = |base: u32| {
+		cfg.forwarding_fee_base_msat = base;
+		nodes[0].node.update_channel_config(&peer, &[chan_id], &cfg).unwrap();
+		let _ = nodes[0].node.get_and_clear_pending_msg_events();
+	};
+	set(1000);
+	// let the policy before 1000 lapse so that 1000 is the only one in force
+	for _ in 0..6 {
+		nodes[0].node.timer_tick_occurred();
+	}
+	set(2000);
+	for _ in 0..k1 {
+		nodes[0].node.timer_tick_occurred();
+	}
+	set(3000);
+	for _ in 0..k2 {
+		nodes[0].node.timer_tick_occurred();
+	}
+	let _ = nodes[0].node.get_and_clear_pending_msg_events();
+	let h = nodes[0].best_block_info().1;
+	let mut out = Vec::new();
+	for fee in [1000u64, 2000, 3000] {
+		let r = lightning::ln::channelmanager::verif_hooks::can_forward_probe(
+			nodes[0].node, 1_000_000 + fee, h + 200, scid, 1_000_000, h + 200 - 72, true,
+		);
+		out.push(match r { Ok(_) => "1", Err(_) => "0" });
+	}
+	core::mem::forget(nodes);
+	out.join(" ")
+}
+
+/// prev_config_battery: prev_config_probe over nine (k1, k2). Output: `<bad> <total>`.
+fn prev_config_battery(_a: &mut Vec<i128>) -> String {
+	let (mut bad, mut total) = (0u32, 0u32);
+	for (k1, k2) in [(0i128, 0i128), (2, 0), (2, 2), (3, 3), (4, 1), (0, 4), (0, 5), (4, 4), (6, 0)] {
+		total += 1;
+		let want = format!("0 {} 1", if k2 < 5 { 1 } else { 0 });
+		match catch_unwind(AssertUnwindSafe(|| prev_config_probe(&mut vec![k1, k2]))) {
+			Ok(v) if v == want => {},
+			other => {
+				bad += 1;
+				if std::env::var("ORACLE_DEBUG").is_ok() {
+					eprintln!("prev_config_battery: {} {}: {:?} (wanted {})", k1, k2, other.ok(), want);
+				}
+			},
+		}
+	}
+	format!("{} {}", bad, total)
+}
+
 fn main() {
 	if std::env::var("ORACLE_DEBUG").is_err() { std::panic::set_hook(Box::new(|_| {})); }
 	let stdin = std::io::stdin();
@@ -2631,6 +2705,8 @@ fn main() {
 		let mut args: Vec<i128> = it.map(|x| x.parse::<i128>().expect("bad int")).collect();
 		let r = catch_unwind(AssertUnwindSafe(|| match name.as_str() {
 			"forward_probe" => forward_probe(&mut args),
+			"prev_config_probe" => prev_config_probe(&mut args),
+			"prev_config_battery" => prev_config_battery(&mut args),
 			"own_csv_probe" => own_csv_probe(&mut args),
 			"own_csv_battery" => own_csv_battery(&mut args),
 			"persister_probe" => persister_probe(&mut args),
